@@ -282,13 +282,27 @@ def r3_pairing(rep, ctx):
     res = Resolver(m, fn, flow=False)
     cfg = CFG(fn.node)
     stores = [n for n, f, k in _state_writes(m, fn) if f == "_current" and k == "store"]
-    if len(stores) != 1:
-        raise AnalysisError("SetCurrent: expected exactly one store of _current, found %d" % len(stores))
+    if not stores:
+        raise AnalysisError("SetCurrent: no store of _current found")
+    del CURRENT_TERMS[1:]
+    for st0 in stores:
+        stored_t = res.term(st0.value)
+        if stored_t[0] == "param" and stored_t not in CURRENT_TERMS:
+            CURRENT_TERMS.append(stored_t)
+    if len(stores) > 1:
+        # several stores (an early exit for one argument form): each one is held to the unregister rule, and to the
+        # notification rule; the store of a system other than None also to the register rule
+        for st0 in stores:
+            _one_store(rep, m, fn, res, cfg, st0, suffix=":line-order-%d" % sorted(x.lineno for x in stores).index(st0.lineno))
+        return
+    _one_store(rep, m, fn, res, cfg, stores[0], suffix="")
+
+
+def _one_store(rep, m, fn, res, cfg, store, suffix):
+    stores = [store]
     S = cfg.node_of(stores[0])
     stored_t = res.term(stores[0].value)
-    del CURRENT_TERMS[1:]
-    if stored_t[0] == "param":
-        CURRENT_TERMS.append(stored_t)
+    stores_none = stored_t == ("const", None)
     unreg = [c for c in _calls(fn, "Unregister")]
     reg = [c for c in _calls(fn, "Register")]
     # tests on _current: label of the edge meaning "there is a current system"
@@ -312,7 +326,7 @@ def r3_pairing(rep, ctx):
         return isinstance(leaf, ast.Compare) and res.term(leaf.left) == ("field", "_current")
     reach = cfg.reach(cfg.ENTRY, avoid=pre_un, avoid_edges={e for e in none_edges if S in cfg.reach(e[0]) and e[0] not in cfg.reach(S) and on_old(e)})
     ok_un = bool(pre_un) and S not in reach
-    rep.check(ok_un, "C17.R3", "SetCurrent:unregister-old",
+    rep.check(ok_un, "C17.R3", "SetCurrent:unregister-old" + suffix,
               "every path to the store of _current either unregisters the old system's listener or had no old system",
               "a path reaches the store of _current with an old current system whose on_default_unit listener is not unregistered (it keeps feeding on_unit_changed after it stops being current)"
               if pre_un else "SetCurrent never unregisters the old system's listener before replacing it", node=stores[0], fn=fn,
@@ -321,24 +335,24 @@ def r3_pairing(rep, ctx):
     post_reg = {cfg.node_of(c) for c in reg if cfg.node_of(c) in cfg.reach(S)}
     post_none_edges = {e for e in none_edges if e[0] in cfg.reach(S)}
     r2 = cfg.reach(S, avoid=post_reg, avoid_edges=post_none_edges)
-    ok_reg = bool(post_reg) and cfg.EXIT not in r2
-    rep.check(ok_reg, "C17.R3", "SetCurrent:register-new",
+    ok_reg = stores_none or (bool(post_reg) and cfg.EXIT not in r2)
+    rep.check(ok_reg, "C17.R3", "SetCurrent:register-new" + suffix,
               "after the store, every path registers the listener on the new system unless it is None",
               "after the store of _current a path reaches the exit without registering the listener on the new current system: its default-unit changes are not forwarded", node=stores[0], fn=fn)
     # --- same callback on both sides, receivers are the current system's on_default_unit
     def cb(c):
         return ast.unparse(c.args[0]) if c.args else None
-    same = bool(unreg) and bool(reg) and {cb(c) for c in unreg} == {cb(c) for c in reg} and len({cb(c) for c in reg}) == 1
+    same = suffix not in ("", ":line-order-0") or (bool(unreg) and bool(reg) and {cb(c) for c in unreg} == {cb(c) for c in reg} and len({cb(c) for c in reg}) == 1)
     recv = all(res.term(c.func.value)[0] == "attr" and res.term(c.func.value)[2] == "on_default_unit" and res.term(c.func.value)[1] in CURRENT_TERMS for c in unreg + reg) \
         and all(res.term(c.func.value)[1] == ("field", "_current") for c in unreg)
-    rep.check(same and recv, "C17.R3", "SetCurrent:same-callback", "Unregister and Register use the same callback on the current system's on_default_unit",
+    rep.check(bool(same and recv), "C17.R3", "SetCurrent:same-callback" + suffix, "Unregister and Register use the same callback on the current system's on_default_unit",
               "Unregister/Register do not pair: callbacks %s vs %s" % (sorted({cb(c) for c in unreg}), sorted({cb(c) for c in reg})), fn=fn)
     # --- on_current fires on every path after the store
     fire = {cfg.node_of(c) for c in own_nodes(fn.node) if isinstance(c, ast.Call) and isinstance(c.func, ast.Attribute) and c.func.attr == "on_current"}
     ok_fire = bool(fire) and cfg.EXIT not in cfg.reach(S, avoid=fire)
-    rep.check(ok_fire, "C17.R3", "SetCurrent:on_current-fires", "on_current is called on every path after the store", "a path from the store of _current to the exit does not call on_current", node=stores[0], fn=fn)
+    rep.check(ok_fire, "C17.R3", "SetCurrent:on_current-fires" + suffix, "on_current is called on every path after the store", "a path from the store of _current to the exit does not call on_current", node=stores[0], fn=fn)
     # --- argument of on_current: the new current system, or the null system in the None arm
-    for c in own_nodes(fn.node):
+    for c in (own_nodes(fn.node) if suffix in ("", ":line-order-0") else []):
         if isinstance(c, ast.Call) and isinstance(c.func, ast.Attribute) and c.func.attr == "on_current":
             t = res.term(c.args[0]) if c.args else ("const", None)
 
